@@ -204,7 +204,7 @@ def valid_case(case):
 
 
 def run(ctx):
-    n = 160 if ctx.quick else 3000
+    n = 320 if ctx.quick else 5000
     ctx.hyp('strat_peer', n, label=1, shards=16)
     # engine B sample (deterministic peers drawn from the table)
     rn = {c: gens.rated_names(c) for c in CATS}
